@@ -64,6 +64,7 @@ struct Search {
     int                                level = 0;
     bool                               capped = false;
     size_t                             per_chunk = 16;
+    bool                               check_ledger = false; // C16: allocation ledger must be empty between transitions
     std::function<void(const Hist &, Sys &)> on_state; // optional extra per-state work (already replayed system)
 
     // replays a history without judging (the steps were judged when they were first explored)
@@ -110,6 +111,20 @@ struct Search {
                                  "custom stage=" + std::to_string(stage_index) + " " + hist_ids(h) + (h.empty() ? "*" : ",*"));
                 }
                 for (int op = 0; op < nops; op++) {
+#ifdef VX_LEDGER_HPP
+                    if (check_ledger && (vx::ledger().live != 0 || vx::ledger().foreign != 0)) {
+                        // every object of the previous transition is gone: nothing may be live, nothing foreign was released
+                        Hist h2 = h;
+                        if (op > 0) {
+                            h2.push_back((uint16_t)(op - 1));
+                        }
+                        ctx.acc.fail(name + " [ledger]: " + hist_str<Sys>(h2),
+                                     "after all objects were destroyed: live blocks=" + std::to_string(vx::ledger().live) +
+                                         " foreign/double releases=" + std::to_string(vx::ledger().foreign),
+                                     "custom stage=" + std::to_string(stage_index) + " " + hist_ids(h2));
+                        vx::ledger().clear();
+                    }
+#endif
                     Sys         s;
                     std::string err;
                     if (!replay(s, h, err)) {
